@@ -104,23 +104,30 @@ const ROOT: &[&str] = &["", "r", "r/", "r//", "/", "//", "http://cdn/", "x", "x/
 const NAMES: &[&str] = &["n", "", "m", "n", "𝒳", "k", "\"q\""];
 
 pub fn gen(rng: &mut Rng, size: usize) -> Value {
-    let ncalls = 1 + rng.below((size * 12) as u64) as usize;
+    // the string pools of this case: the fixed ones; generated names of mixed UTF-8 width and scheme-like
+    // prefixes; or MANY distinct sources (18..80: more than any small-table threshold), revisited
+    let many = rng.chance(1, 12);
+    let srcs: Vec<String> = if many { (0..18 + rng.below(62)).map(|i| format!("{}{}", gen_src_name(rng), i)).collect() }
+        else if rng.chance(1, 3) { (0..2 + rng.below(8)).map(|_| gen_src_name(rng)).collect() }
+        else { SRC.iter().map(|s| s.to_string()).collect() };
+    let roots: Vec<String> = if rng.chance(1, 3) { (0..1 + rng.below(4)).map(|_| gen_root_name(rng)).collect() } else { ROOT.iter().map(|s| s.to_string()).collect() };
+    let ncalls = if many { srcs.len() * 2 + rng.below(40) as usize } else { 1 + rng.below((size * 12) as u64) as usize };
     let mut calls = vec![];
-    let mut distinct: Vec<&str> = vec![]; // model-free bookkeeping only to keep ids in range
+    let mut distinct: Vec<String> = vec![]; // model-free bookkeeping only to keep ids in range
     for _ in 0..ncalls {
         let pos = json!([rng.below(5), rng.below(40), rng.below(30), rng.below(30), rng.below(6) / 5]);
         calls.push(match rng.below(12) {
-            0 | 1 => { let s = *rng.pick(SRC); if !distinct.contains(&s) { distinct.push(s); } json!({"op": "add_source", "s": cps(s)}) }
+            0 | 1 => { let s = rng.pick(&srcs).clone(); if !distinct.contains(&s) { distinct.push(s.clone()); } json!({"op": "add_source", "s": cps(&s)}) }
             2 => json!({"op": "add_name", "n": *rng.pick(NAMES)}),
             3 | 4 | 5 => {
-                let src = if rng.chance(4, 5) { let s = *rng.pick(SRC); if !distinct.contains(&s) { distinct.push(s); } json!([cps(s)]) } else { json!([]) };
+                let src = if rng.chance(4, 5) { let s = rng.pick(&srcs).clone(); if !distinct.contains(&s) { distinct.push(s.clone()); } json!([cps(&s)]) } else { json!([]) };
                 let name = if rng.chance(1, 2) { json!([*rng.pick(NAMES)]) } else { json!([]) };
                 json!({"op": "add", "pos": pos, "src": src, "name": name})
             }
             6 => json!({"op": "add_raw", "pos": pos, "sid": if distinct.is_empty() { -1 } else { rng.range(-1, distinct.len() as i64 - 1) }, "nid": -1}),
             7 if !distinct.is_empty() => json!({"op": "set_source_contents", "id": rng.below(distinct.len() as u64), "c": if rng.chance(1, 4) { json!([]) } else { json!([*rng.pick(NAMES)]) }}),
             8 if !distinct.is_empty() => json!({"op": "add_to_ignore_list", "id": rng.below(distinct.len() as u64)}),
-            9 => json!({"op": "set_source_root", "r": if rng.chance(1, 5) { json!([]) } else { json!([cps(*rng.pick(ROOT))]) }}),
+            9 => json!({"op": "set_source_root", "r": if rng.chance(1, 5) { json!([]) } else { json!([cps(rng.pick(&roots[..]).as_str())]) }}),
             10 => json!({"op": "set_file", "f": if rng.chance(1, 4) { json!([]) } else { json!([*rng.pick(NAMES)]) }}),
             _ => json!({"op": "set_debug_id", "d": if rng.chance(1, 3) { json!([]) } else { json!([*rng.pick(crate::c02::UUIDS)]) }}),
         });
@@ -129,8 +136,8 @@ pub fn gen(rng: &mut Rng, size: usize) -> Value {
     let nsrc = distinct.len() as u64;
     for _ in 0..rng.below((size * 4) as u64 + 1) {
         calls.push(match rng.below(6) {
-            0 | 1 => json!({"op": "m_set_source_root", "r": if rng.chance(1, 5) { json!([]) } else { json!([cps(*rng.pick(ROOT))]) }}),
-            2 if nsrc > 0 => json!({"op": "m_set_source", "id": rng.below(nsrc), "s": cps(*rng.pick(SRC))}),
+            0 | 1 => json!({"op": "m_set_source_root", "r": if rng.chance(1, 5) { json!([]) } else { json!([cps(rng.pick(&roots[..]).as_str())]) }}),
+            2 if nsrc > 0 => json!({"op": "m_set_source", "id": rng.below(nsrc), "s": cps(rng.pick(&srcs[..]).as_str())}),
             3 if nsrc > 0 => json!({"op": "m_set_source_contents", "id": rng.below(nsrc), "c": if rng.chance(1, 4) { json!([]) } else { json!([*rng.pick(NAMES)]) }}),
             _ => json!({"op": "m_saveload"}),
         });
